@@ -237,7 +237,7 @@ unsafe fn drop_cycle<T>(cycle: HashMap<Link<T>, usize>) {
         // deallocate. This allows us to bust the cycle detection by clearing
         // all links.
         let rcbox = ptr.as_ptr();
-        let cycle_strong_refs = {
+        let _busted_forward_links = {
             let mut links = (*rcbox).links().borrow_mut();
             links
                 .extract_if(|link, _| {
@@ -261,7 +261,11 @@ unsafe fn drop_cycle<T>(cycle: HashMap<Link<T>, usize>) {
         // cycle holds a strong reference to `this`. Mark all nodes in the cycle
         // as dead so when we deallocate them via the `value` pointer we don't
         // get a double-free.
-        for _ in 0..cycle_strong_refs.min((*rcbox).strong()) {
+        //
+        // The references this node loses are the ones held by members of the
+        // cycle, which is the `refcount` computed by the reachability trace,
+        // not the number of links this node itself holds to other members.
+        for _ in 0..refcount.min((*rcbox).strong()) {
             (*rcbox).dec_strong();
         }
     }
